@@ -15,13 +15,6 @@ import (
 	"github.com/multiformats/go-multihash"
 )
 
-// V is the JSON form of a Values.tla value (also of the outcomes novalue / error / dontcare).
-type V struct {
-	K  string `json:"k"`
-	V  any    `json:"v,omitempty"`
-	Sp string `json:"sp,omitempty"`
-}
-
 func cpsToString(x any) (string, error) {
 	arr, ok := x.([]any)
 	if !ok {
@@ -54,25 +47,33 @@ func linkFor(id string) datamodel.Link {
 	return cidlink.Link{Cid: cid.NewCidV1(cid.Raw, h)}
 }
 
-// nodeOf builds the real node for a decoded JSON value (map[string]any form).
+// nodeOf builds the real node for a decoded JSON value: ["kind", payload, (class)].
 func nodeOf(x any) (ipld.Node, error) {
-	m, ok := x.(map[string]any)
-	if !ok {
-		return nil, fmt.Errorf("value is %T", x)
+	t, ok := x.([]any)
+	if !ok || len(t) == 0 {
+		return nil, fmt.Errorf("value is %T %v", x, x)
 	}
-	k, _ := m["k"].(string)
+	k, _ := t[0].(string)
+	var pv any
+	if len(t) > 1 {
+		pv = t[1]
+	}
 	switch k {
 	case "null":
 		return datamodel.Null, nil
 	case "bool":
-		b, _ := m["v"].(bool)
+		b, _ := pv.(bool)
 		return basicnode.NewBool(b), nil
 	case "int":
-		f, _ := m["v"].(float64)
+		f, _ := pv.(float64)
 		return basicnode.NewInt(int64(f)), nil
 	case "float":
-		f, _ := m["v"].(float64)
-		switch m["sp"] {
+		f, _ := pv.(float64)
+		sp := "fin"
+		if len(t) > 2 {
+			sp, _ = t[2].(string)
+		}
+		switch sp {
 		case "nan":
 			return basicnode.NewFloat(math.NaN()), nil
 		case "pinf":
@@ -82,13 +83,13 @@ func nodeOf(x any) (ipld.Node, error) {
 		}
 		return basicnode.NewFloat(f / 2), nil
 	case "string":
-		s, err := cpsToString(m["v"])
+		s, err := cpsToString(pv)
 		if err != nil {
 			return nil, err
 		}
 		return basicnode.NewString(s), nil
 	case "bytes":
-		arr, _ := m["v"].([]any)
+		arr, _ := pv.([]any)
 		b := make([]byte, len(arr))
 		for i, e := range arr {
 			f, _ := e.(float64)
@@ -96,10 +97,10 @@ func nodeOf(x any) (ipld.Node, error) {
 		}
 		return basicnode.NewBytes(b), nil
 	case "link":
-		id, _ := m["v"].(string)
+		id, _ := pv.(string)
 		return basicnode.NewLink(linkFor(id)), nil
 	case "list":
-		arr, _ := m["v"].([]any)
+		arr, _ := pv.([]any)
 		var ierr error
 		n, err := qp.BuildList(basicnode.Prototype.Any, int64(len(arr)), func(la datamodel.ListAssembler) {
 			for _, e := range arr {
@@ -116,21 +117,21 @@ func nodeOf(x any) (ipld.Node, error) {
 		}
 		return n, err
 	case "map":
-		arr, _ := m["v"].([]any)
+		arr, _ := pv.([]any)
 		var ierr error
 		n, err := qp.BuildMap(basicnode.Prototype.Any, int64(len(arr)), func(ma datamodel.MapAssembler) {
 			for _, e := range arr {
-				em, ok := e.(map[string]any)
-				if !ok {
+				em, ok := e.([]any)
+				if !ok || len(em) != 2 {
 					ierr = fmt.Errorf("map entry is %T", e)
 					return
 				}
-				key, err := cpsToString(em["key"])
+				key, err := cpsToString(em[0])
 				if err != nil {
 					ierr = err
 					return
 				}
-				c, err := nodeOf(em["val"])
+				c, err := nodeOf(em[1])
 				if err != nil {
 					ierr = err
 					return
@@ -151,44 +152,44 @@ var linkNames = map[string]string{}
 // jsonOf is the inverse projection: real node -> Values.tla JSON form.
 func jsonOf(n ipld.Node) any {
 	if n == nil {
-		return map[string]any{"k": "novalue"}
+		return []any{"novalue"}
 	}
 	switch n.Kind() {
 	case datamodel.Kind_Null:
-		return map[string]any{"k": "null"}
+		return []any{"null"}
 	case datamodel.Kind_Bool:
 		b, _ := n.AsBool()
-		return map[string]any{"k": "bool", "v": b}
+		return []any{"bool", b}
 	case datamodel.Kind_Int:
 		i, _ := n.AsInt()
-		return map[string]any{"k": "int", "v": i}
+		return []any{"int", i}
 	case datamodel.Kind_Float:
 		f, _ := n.AsFloat()
 		switch {
 		case math.IsNaN(f):
-			return map[string]any{"k": "float", "v": 0, "sp": "nan"}
+			return []any{"float", 0, "nan"}
 		case math.IsInf(f, 1):
-			return map[string]any{"k": "float", "v": 0, "sp": "pinf"}
+			return []any{"float", 0, "pinf"}
 		case math.IsInf(f, -1):
-			return map[string]any{"k": "float", "v": 0, "sp": "ninf"}
+			return []any{"float", 0, "ninf"}
 		}
-		return map[string]any{"k": "float", "v": int64(math.Round(f * 2)), "sp": "fin"}
+		return []any{"float", int64(math.Round(f * 2)), "fin"}
 	case datamodel.Kind_String:
 		s, _ := n.AsString()
-		return map[string]any{"k": "string", "v": stringToCps(s)}
+		return []any{"string", stringToCps(s)}
 	case datamodel.Kind_Bytes:
 		b, _ := n.AsBytes()
 		out := make([]int, len(b))
 		for i, x := range b {
 			out[i] = int(x)
 		}
-		return map[string]any{"k": "bytes", "v": out}
+		return []any{"bytes", out}
 	case datamodel.Kind_Link:
 		l, _ := n.AsLink()
 		if name, ok := linkNames[l.String()]; ok {
-			return map[string]any{"k": "link", "v": name}
+			return []any{"link", name}
 		}
-		return map[string]any{"k": "link", "v": l.String()}
+		return []any{"link", l.String()}
 	case datamodel.Kind_List:
 		out := []any{}
 		it := n.ListIterator()
@@ -199,7 +200,7 @@ func jsonOf(n ipld.Node) any {
 			}
 			out = append(out, jsonOf(v))
 		}
-		return map[string]any{"k": "list", "v": out}
+		return []any{"list", out}
 	case datamodel.Kind_Map:
 		out := []any{}
 		it := n.MapIterator()
@@ -209,11 +210,11 @@ func jsonOf(n ipld.Node) any {
 				break
 			}
 			ks, _ := k.AsString()
-			out = append(out, map[string]any{"key": stringToCps(ks), "val": jsonOf(v)})
+			out = append(out, []any{stringToCps(ks), jsonOf(v)})
 		}
-		return map[string]any{"k": "map", "v": out}
+		return []any{"map", out}
 	}
-	return map[string]any{"k": "unknown:" + n.Kind().String()}
+	return []any{"unknown:" + n.Kind().String()}
 }
 
 func init() {
